@@ -7,6 +7,7 @@ import pandas as pd
 from reamber.base.Property import list_props
 from reamber.base.lists.notes.HitList import HitList
 from reamber.quaver.QuaHit import QuaHit
+from reamber.quaver.lists.QuaTimedList import QuaTimedList
 from reamber.quaver.lists.notes.QuaNoteList import QuaNoteList
 
 
@@ -14,7 +15,7 @@ from reamber.quaver.lists.notes.QuaNoteList import QuaNoteList
 class QuaHitList(HitList[QuaHit], QuaNoteList[QuaHit]):
     @staticmethod
     def from_yaml(dicts: List[Dict[str, Any]]) -> QuaHitList:
-        df = pd.DataFrame(dicts)
+        df = QuaTimedList._to_frame(dicts, ("StartTime", "Lane"))
         df = df.rename(
             dict(StartTime="offset", Lane="column", KeySounds="keysounds"), axis=1
         )
